@@ -3,7 +3,7 @@ from checks.generic import standard
 def run(ctx):
     return standard(ctx,
         props=[("Props.C11", ["c11_roundtrip", "c11_extract_minted", "c11_iff", "c11_only_v4",
-                              "c11_malformed_never_widens", "c11_refresh_same_blocks", "c11_old_decoder_panics"])],
+                              "c11_malformed_never_widens", "c11_numeric_prefix", "c11_refresh_same_blocks", "c11_old_decoder_panics"])],
         harness=("TestVerif_C11", ["kmd/common.go", "kmd/creds.go", "kmd/consts.go", "kmd/c11.go"]),
         cases=("CasesC11.v", [("c11_verify_mismatches", "VerifyIPRestrictedX509CertIP = model verify_ip on minted certificates"),
                               ("c11_wf_mismatches", "every minted block list satisfies the theorem's well-formedness hypothesis"),
